@@ -61,6 +61,9 @@ type VC struct {
 	specErrs   []string
 	qSeq       int
 	epochSeq   int
+	refAx      map[string]bool
+	activeBound []*Term
+	curLoopA    *Term
 }
 
 func (vc *VC) note(format string, a ...any) {
@@ -89,14 +92,33 @@ func (vc *VC) assume(st *State, t *Term) {
 	if t.IsTrue() {
 		return
 	}
-	vc.hyps = append(vc.hyps, t)
+	vc.hyps = append(vc.hyps, vc.closeBound(t))
 }
 
 func (vc *VC) assumeGlobal(t *Term) {
 	if t.IsTrue() {
 		return
 	}
-	vc.hyps = append(vc.hyps, t)
+	vc.hyps = append(vc.hyps, vc.closeBound(t))
+}
+
+// closeBound universally closes a fact over the quantifier variables that are active while a contract
+// expression is being evaluated (facts produced inside a quantifier body are instances of axioms that
+// hold for every value of the bound variable).
+func (vc *VC) closeBound(t *Term) *Term {
+	if len(vc.activeBound) == 0 {
+		return t
+	}
+	var used []*Term
+	for _, v := range vc.activeBound {
+		if containsVar(t, []*Term{v}) {
+			used = append(used, v)
+		}
+	}
+	if len(used) == 0 {
+		return t
+	}
+	return vc.P.Forall(used, t)
 }
 
 func (vc *VC) counter(k string) int {
@@ -242,6 +264,11 @@ type loopInfo struct {
 	body    map[*ssa.BasicBlock]bool
 	ordinal int
 	backs   []*ssa.BasicBlock // sources of back edges
+	locs    []loc             // evaluated modifies clause of the loop (precise frame), at loop entry
+	precise bool
+	modClauses []*Clause
+	headLocs   []loc // the same clause evaluated in the loop-head state of an arbitrary iteration
+	aEntry     *Term
 }
 
 func findLoops(fn *ssa.Function) map[*ssa.BasicBlock]*loopInfo {
